@@ -19,7 +19,7 @@ var rec = vev.For("C06")
 
 func TestMain(m *testing.M) {
 	rec.SetRule("(calendar object, filter tree) pairs: (a) every weak ordering of range start/end, DTSTART and DTEND on a 7-slot half-day grid for each of the five ways a VEVENT states its extent, with open start / open end; (b) complete small filter trees over 12 fixed objects; (c) rapid-generated calendars and filter trees; (d) recurring events DAILY/WEEKLY x INTERVAL x COUNT with instances computed arithmetically; (e) Filter over object lists. non-trivial = the verdict is not settled by the top-level name test and the reference verdict is decisive (not Either); distinct by canonical JSON of (objects, filter)")
-	rec.Assume("query instants are UTC; event instants are UTC date-times or DATE values (no TZID: lookups depend on host tzdata)", "time-range filters are generated on VEVENT only", "is-not-defined excludes sibling elements (RFC DTD); text-match and time-range exclusive in one prop-filter", "Either verdicts (default collation case folding, escaped text, repeated properties/parameter values, property value == range start) never decide anything and are counted")
+	rec.Assume("query instants are given as time.Time values in UTC or in a fixed zone (same instants); event instants are UTC date-times or DATE values (no TZID: lookups depend on host tzdata)", "time-range filters are generated on VEVENT only", "is-not-defined excludes sibling elements (RFC DTD); text-match and time-range exclusive in one prop-filter", "Either verdicts (default collation case folding, escaped text, repeated properties/parameter values, property value == range start) never decide anything and are counted")
 	vev.Main(m)
 }
 
@@ -28,13 +28,18 @@ type Case struct {
 	NilQuery bool   `json:"nil_query,omitempty"`
 	Filter   CompF  `json:"filter"`
 	Objects  []Comp `json:"objects"`
+	// QZone: the query's instants are handed to the library as time.Time values in a fixed zone this many seconds
+	// east of UTC (same instants, other Location - what a caller gets from time.Now() or from parsing local times)
+	QZone int `json:"qzone,omitempty"`
 }
+
+var qloc = time.UTC
 
 func ts(p *int64) time.Time {
 	if p == nil {
 		return time.Time{}
 	}
-	return time.Unix(*p, 0).UTC()
+	return time.Unix(*p, 0).In(qloc)
 }
 
 func toTM(tm *TextMatch) *caldav.TextMatch {
@@ -204,6 +209,10 @@ func evaluate(c Case) (o vev.Outcome) {
 			o = vev.Outcome{Sig: vev.Sig("panic", c.Mode), Msg: fmt.Sprintf("panic: %v", p)}
 		}
 	}()
+	qloc = time.UTC
+	if c.QZone != 0 {
+		qloc = time.FixedZone("", c.QZone)
+	}
 	filter := toFilter(c.Filter)
 	filterCopy := toFilter(c.Filter)
 	objs := make([]caldav.CalendarObject, len(c.Objects))
@@ -215,7 +224,7 @@ func evaluate(c Case) (o vev.Outcome) {
 	feat := features(c.Filter) + "/" + objClass(c.Objects)
 	switch c.Mode {
 	case "match":
-		want, rerr := RefMatch(c.Filter, c.Objects[0])
+		want, rerr := RefMatchZ(c.Filter, c.Objects[0], c.QZone)
 		if rerr != nil {
 			return vev.Outcome{Sig: "bad-case", Msg: "reference cannot evaluate: " + rerr.Error()}
 		}
@@ -240,7 +249,7 @@ func evaluate(c Case) (o vev.Outcome) {
 			want := T
 			if !c.NilQuery {
 				var rerr error
-				want, rerr = RefMatch(c.Filter, c.Objects[i])
+				want, rerr = RefMatchZ(c.Filter, c.Objects[i], c.QZone)
 				if rerr != nil {
 					return vev.Outcome{Sig: "bad-case", Msg: "reference cannot evaluate: " + rerr.Error()}
 				}
@@ -291,7 +300,7 @@ func run(t *testing.T, rt *rapid.T, c Case, class string) {
 		if c.NilQuery {
 			break
 		}
-		v, err := RefMatch(c.Filter, ob)
+		v, err := RefMatchZ(c.Filter, ob, c.QZone)
 		if err != nil {
 			if rt != nil {
 				rt.Fatalf("generator produced a case the reference cannot evaluate: %v", err)
@@ -308,7 +317,7 @@ func run(t *testing.T, rt *rapid.T, c Case, class string) {
 		rec.Count("either-verdicts", 1)
 	}
 	if c.Mode == "match" && !c.NilQuery {
-		v, _ := RefMatch(c.Filter, c.Objects[0])
+		v, _ := RefMatchZ(c.Filter, c.Objects[0], c.QZone)
 		rec.Count("verdict/"+strings.SplitN(class, "/", 2)[0]+"/"+v.String(), 1)
 	}
 	rec.Case(class, nontrivial, mustJSON(c), func() any { return c })
@@ -416,6 +425,7 @@ func TestEnumerateIntervals(t *testing.T) {
 			}
 			f := CompF{Name: "VCALENDAR", Comps: []CompF{{Name: "VEVENT", Start: r.s, End: r.e}}}
 			run(t, nil, Case{Mode: "match", Filter: f, Objects: []Comp{vcal(e.ev)}}, "a/"+e.form)
+			run(t, nil, Case{Mode: "match", Filter: f, Objects: []Comp{vcal(e.ev)}, QZone: 19800}, "a/"+e.form+"/qzone")
 		}
 	}
 	rec.ExhaustiveSub("every ordering (equalities included) of range start, range end, DTSTART and the event end on a 7-slot half-day grid, for DTEND / DURATION>0 / DURATION=0 / instant / all-day / DATE-valued DTEND events, with open start and open end")
@@ -579,6 +589,7 @@ func TestEnumerateRecurring(t *testing.T) {
 							}
 							f := CompF{Name: "VCALENDAR", Comps: []CompF{{Name: "VEVENT", Start: r[0], End: r[1]}}}
 							run(t, nil, Case{Mode: "match", Filter: f, Objects: []Comp{vcal(ev)}}, "d/"+form)
+							run(t, nil, Case{Mode: "match", Filter: f, Objects: []Comp{vcal(ev)}, QZone: -28800}, "d/"+form+"/qzone")
 						}
 					}
 				}
@@ -839,6 +850,7 @@ func TestRandom(t *testing.T) {
 				c.Objects = append(rapid.SliceOfN(genObject(), 0, 2).Draw(rt, "pre"), ob)
 				c.Objects = append(c.Objects, rapid.SliceOfN(genObject(), 0, 2).Draw(rt, "post")...)
 			}
+			c.QZone = rapid.SampledFrom([]int{0, 0, 19800, -28800, 3600}).Draw(rt, "qzone")
 			run(t, rt, c, "c-derived/"+c.Mode+"/"+objClass(c.Objects))
 			return
 		}
@@ -850,6 +862,7 @@ func TestRandom(t *testing.T) {
 		} else {
 			c.Objects = []Comp{genObject().Draw(rt, "object")}
 		}
+		c.QZone = rapid.SampledFrom([]int{0, 0, 19800, -28800, 3600}).Draw(rt, "qzone")
 		run(t, rt, c, "c/"+c.Mode+"/"+objClass(c.Objects))
 	})
 }
